@@ -17,7 +17,7 @@ KAPPA_HARD = 1e11          # beyond this nothing numerical is judged
 BUD = 1e-12                # ≈ 4500 eps: budget per unit of (scale · κ)
 
 
-def gen_model(ctx, rng, bases=None, opts=None, want_tall=True, max_modes=None, force_graded=False):
+def gen_model(ctx, rng, bases=None, opts=None, want_tall=True, max_modes=None, force_graded=False, force_dtype=None):
     """A fitted SSPOR with its configuration. Returns dict or None (fit rejected)."""
     from pysensors.reconstruction import SSPOR
     basis = rng.choice(bases or models.BASIS_KINDS)
@@ -25,7 +25,7 @@ def gen_model(ctx, rng, bases=None, opts=None, want_tall=True, max_modes=None, f
     nf = rng.randint(ne if want_tall else 1, ctx.scale(9, 12))
     X = np.array([[rng.randint(-6, 6) for _ in range(nf)] for _ in range(ne)], dtype=float)
     # dtypes: training data are often integer arrays (counts, raw images); the Identity basis keeps that dtype
-    dt = rng.choice(["float64"] * 6 + ["int64", "int32", "uint8"])
+    dt = force_dtype or rng.choice(["float64"] * 6 + ["int64", "int32", "uint8"])
     graded = False
     if dt == "uint8":
         X = np.abs(X)
@@ -33,7 +33,7 @@ def gen_model(ctx, rng, bases=None, opts=None, want_tall=True, max_modes=None, f
         ne = max(ne, 3)
         nf = max(nf, ne + 1)
         X = np.array([[rng.randint(-6, 6) for _ in range(nf)] for _ in range(ne)], dtype=float)
-    if force_graded or (basis != "svd" and ne >= 2 and rng.random() < 0.3):
+    if force_graded or (force_dtype is None and basis != "svd" and ne >= 2 and rng.random() < 0.3):
         dt = "float64"
     if dt != "float64":
         X = X.astype(dt)
